@@ -131,3 +131,95 @@ pub fn scenario(ch: &mut Chooser) -> Exec {
     }
     Exec { outcome: Digest::of64(&obs), violation, features: vec![] }
 }
+
+/// UDP half of C16: a datagram whose payload does not fit the MTU of the path to its
+/// destination is rejected with an error and never sent; one that fits is sent. The socket's
+/// own bind address (wildcard, loopback, external) does not change which MTU applies.
+pub fn udp_scenario(ch: &mut Chooser) -> Exec {
+    use turmoil_net::shim::tokio::net::UdpSocket;
+    let v6 = ch.flag("ipv6");
+    let (mtu, lomtu) = *ch.of("mtu(external, loopback)", &[(100u32, 200u32), (200, 100), (1500, 65536), (90, 90)]);
+    let bind_kind = ch.choose("bind(wildcard|loopback|external)", 3);
+    let dst_kind = ch.choose("destination(loopback|other host)", 2);
+    let hdr: u32 = if v6 { 40 } else { 20 };
+    let limit = |m: u32| m.saturating_sub(hdr).saturating_sub(8) as i64;
+    let path_limit = if dst_kind == 0 { limit(lomtu) } else { limit(mtu) };
+    let other_limit = if dst_kind == 0 { limit(mtu) } else { limit(lomtu) };
+    let size_opts: Vec<i64> = vec![path_limit - 1, path_limit, path_limit + 1, other_limit, other_limit + 1];
+    let size = size_opts[ch.choose("payload(limit-1|limit|limit+1|other path's limit|other path's limit+1)", size_opts.len())].clamp(1, 70_000) as usize;
+
+    let kc = KernelConfig::default().mtu(mtu).loopback_mtu(lomtu);
+    let mut net = Net::with_config(kc);
+    let (aip, bip): (IpAddr, IpAddr) = if v6 { ("fd00::1".parse().unwrap(), "fd00::2".parse().unwrap()) } else { ("10.0.0.1".parse().unwrap(), "10.0.0.2".parse().unwrap()) };
+    let lo: IpAddr = if v6 { "::1".parse().unwrap() } else { "127.0.0.1".parse().unwrap() };
+    let any: IpAddr = if v6 { "::".parse().unwrap() } else { "0.0.0.0".parse().unwrap() };
+    let a = net.add_host(aip);
+    let b = net.add_host(bip);
+    let hosts = [a, b];
+    let guard = net.enter();
+    let bind_ip = [any, lo, aip][bind_kind];
+    let dst = SocketAddr::new(if dst_kind == 0 { lo } else { bip }, 9);
+    let res: Rc<RefCell<Option<Result<usize, String>>>> = Rc::new(RefCell::new(None));
+    let mut exec = Executor::new();
+    {
+        let res = res.clone();
+        exec.spawn(0, async move {
+            let s = match UdpSocket::bind(SocketAddr::new(bind_ip, 0)).await {
+                Ok(s) => s,
+                Err(e) => {
+                    *res.borrow_mut() = Some(Err(format!("bind {:?}", e.kind())));
+                    return;
+                }
+            };
+            let payload = vec![7u8; size];
+            let r = s.send_to(&payload, dst).await.map_err(|e| format!("{:?} os={:?}", e.kind(), e.raw_os_error()));
+            *res.borrow_mut() = Some(r);
+            std::future::pending::<()>().await;
+        });
+    }
+    exec.run_until_stalled(200, |tag| turmoil_net::set_current(hosts[tag as usize]));
+    let mut out = vec![];
+    guard.egress_all(&mut out);
+    let sent_bytes: Vec<usize> = out
+        .iter()
+        .filter_map(|p| match &p.payload {
+            Transport::Udp(d) => Some(d.payload.len()),
+            _ => None,
+        })
+        .collect();
+    let r = res.borrow().clone();
+    let fits = size as i64 <= path_limit;
+    let mut violation = None;
+    let obs = format!("v6={v6} mtu={mtu} lomtu={lomtu} bind={bind_kind} dst={dst} size={size} path_limit={path_limit} -> {r:?}, on the wire {sent_bytes:?}");
+    // a socket bound to the loopback address talking to another host (or the reverse) may be
+    // refused for addressing reasons; only the size rule is judged there
+    let cross = (bind_kind == 1 && dst_kind == 1) || (bind_kind == 2 && dst_kind == 0);
+    match (&r, fits) {
+        (Some(Ok(n)), true) if *n == size => {}
+        (Some(Err(_)), true) if cross => {}
+        (Some(Err(e)), false) if sent_bytes.is_empty() => {
+            let _ = e;
+        }
+        _ => {
+            violation = Some(Violation::new(
+                "udp-mtu",
+                format!(
+                    "a {size}-byte UDP payload to {dst} ({} path, MTU {}, at most {path_limit} payload bytes): send_to returned {:?} and {:?} payload bytes went onto the wire; expected {}",
+                    if dst_kind == 0 { "loopback" } else { "external" },
+                    if dst_kind == 0 { lomtu } else { mtu },
+                    r,
+                    sent_bytes,
+                    if fits { "Ok(size)" } else { "an error and nothing sent" }
+                ),
+            ));
+        }
+    }
+    drop(exec);
+    drop(guard);
+    if let Some(v) = violation.as_mut() {
+        v.sig = "udp-mtu".into();
+        v.scenario = format!("c16-udp {obs}");
+        v.actions = vec![obs.clone()];
+    }
+    Exec { outcome: Digest::of64(&obs), violation, features: vec![] }
+}
